@@ -8,7 +8,8 @@
    the end of the file included; the header offSize fits.  The ASSUMEs of that module test the
    TN5176 operators of CFFLayoutOps.tla on the examples of the specification.
 2. R: CFFLayoutGen.tla enumerates structure descriptors and expands each into an abstract font
-   ("ofat": every value of every dimension, exhaustive; "sweep": Notice padded so that every stored
+   ("ofat": every value of every dimension, exhaustive; "shapes": every shape of a nibble-coded real --
+   sign x 1..9 digits x position of the decimal point -- in every float-typed DICT field, exhaustive; "sweep": Notice padded so that every stored
    offset crosses 108 / 1132 / 32768 / 65536, pads aimed with a measured probe; "rand": -simulate over
    the full product; thorough: "big" fonts up to 65535 glyphs).
 3. The harness builds the cff.Font, calls Write, walks the bytes with an independent reader
@@ -33,7 +34,9 @@ MANIFEST = {
             "simple and CID-keyed layouts with 1-3 font DICTs. TLC then enumerates structure descriptors of fonts "
             "(glyph-name/CID run structures, FDSelect patterns, encodings incl. supplements and predefined ones, "
             "integer/fractional width patterns, DICT integers at every size class, reals with 1-9 digits and exponents "
-            "to +-290, Notice paddings that move every stored offset across each boundary) and expands them to "
+            "to +-290, every shape of a DICT real (sign x 1-9 significant digits x decimal-point position from 0.0000ddd "
+            "to ddd0000 and exponent forms) in every float-typed field (FontMatrix, FD FontMatrix, StdHW, StdVW, BlueScale, "
+            "ItalicAngle, UnderlinePosition/Thickness), Notice paddings that move every stored offset across each boundary) and expands them to "
             "abstract fonts; the real cff.Font.Write output is walked by an independent CFF reader and read back by "
             "cff.Read, and TLC (CFFLayoutTrace.tla, operators written from TN5176/TN5177) decides whether the raw "
             "bytes decode to the abstract font and whether cff.Read's projection equals it (reals to 9 digits, "
@@ -392,6 +395,11 @@ def run(ctx):
     ctx.sample({"abstract_font": {k: v for k, v in ofat[0].items() if k != "enc"}})
     bad += _validate_all(ctx, binp, ofat, "ofat", stats)
 
+    # 2a'. every shape of a nibble-coded real (sign x 1..9 digits x position of the decimal point, incl. trailing
+    # zeros and zeros after the point) in every float-typed DICT field (exhaustive enumeration of "shapes")
+    shapes = pool.add(_gen(ctx, "shapes", label="CFFLayoutGen shapes (exhaustive)"))
+    bad += _validate_all(ctx, binp, shapes, "shapes", stats)
+
     # 2b. paddings that move every stored offset across every boundary
     kinds = (0, 2) if ctx.quick() else (0, 1, 2, 3)
     jlo, jhi = (-7, 1) if ctx.quick() else (-14, 3)
@@ -420,9 +428,9 @@ def run(ctx):
         bad += _validate_all(ctx, binp, big, "big", stats, chunk=2)
 
     ctx.cov["distinct_nontrivial"] = pool.n
-    ctx.cov["rule"] = ("distinct abstract fonts generated by TLC (ofat %d + sweep %d + rand %d + big %d), each written by "
+    ctx.cov["rule"] = ("distinct abstract fonts generated by TLC (ofat %d + real-number shapes %d + sweep %d + rand %d + big %d), each written by "
                        "the library, walked, read back and judged by TLC; evaluations = recorded events validated"
-                       % (len(ofat), len(sweep), len(rand), nbig))
+                       % (len(ofat), len(shapes), len(sweep), len(rand), nbig))
     ctx.cov["bounds"]["recorded_files"] = stats.summary()
     if bad:
         _report(ctx, bad)
